@@ -54,7 +54,38 @@ def main():
     os.chdir('/')
     import shutil
     shutil.rmtree(box, ignore_errors=True)
+    _reap()
     os._exit(rc)  # skip lingering threads (dask / serving)
+
+
+def _reap():
+    """Kill whatever processes this run has left behind (pool / worker processes of an engine that could not be shut down
+    would survive os._exit as orphans holding our stdout)."""
+    import signal
+
+    def children(pid):
+        found = []
+        for entry in os.listdir('/proc'):
+            if entry.isdigit():
+                try:
+                    with open(f'/proc/{entry}/stat') as fh:
+                        fields = fh.read().rsplit(')', 1)[1].split()
+                    if int(fields[1]) == pid:
+                        found.append(int(entry))
+                except (OSError, IndexError, ValueError):
+                    pass
+        return found
+
+    todo, seen = children(os.getpid()), []
+    while todo:
+        pid = todo.pop()
+        seen.append(pid)
+        todo.extend(children(pid))
+    for pid in seen:
+        try:
+            os.kill(pid, signal.SIGKILL)
+        except OSError:
+            pass
 
 
 if __name__ == '__main__':
